@@ -186,6 +186,9 @@ pub fn entry_points() -> Vec<Ep> {
         Ep { name: "de_bytes_value", sem: Sem::PStrict, utf8_only: false, pre: b"", post: b"", f: |b| { let x = bytes::Bytes::copy_from_slice(b); Deserializer::from_json(&x).deserialize::<Value>().map(|v| dv(&v)) } },
         Ep { name: "de_faststr_value", sem: Sem::PStrict, utf8_only: true, pre: b"", post: b"", f: |b| { let x = faststr::FastStr::new(s(b)); Deserializer::from_json(&x).deserialize::<Value>().map(|v| dv(&v)) } },
         Ep { name: "de_string_value", sem: Sem::PStrict, utf8_only: true, pre: b"", post: b"", f: |b| { let x = s(b).to_string(); Deserializer::from_json(&x).deserialize::<Value>().map(|v| dv(&v)) } },
+        // the same deserializer asked again after its first answer (whatever that was): further answers are not predicted, but no call may panic
+        Ep { name: "de_slice_value_again", sem: Sem::PStrict, utf8_only: false, pre: b"", post: b"", f: |b| { let mut de = Deserializer::from_slice(b); let r = de.deserialize::<Value>().map(|v| dv(&v));
+            for _ in 0..3 { let _ = de.deserialize::<Value>().map(|v| drop(v)); let _ = de.deserialize::<LazyValue>().map(|_| ()); } r } },
         Ep { name: "de_slice_lazy", sem: Sem::PLax, utf8_only: false, pre: b"", post: b"", f: |b| Deserializer::from_slice(b).deserialize::<LazyValue>().map(|_| None) },
         Ep { name: "de_slice_value_rawnum", sem: Sem::PRaw, utf8_only: false, pre: b"", post: b"", f: |b| Deserializer::from_slice(b).use_rawnumber().deserialize::<Value>().map(|v| dv(&v)) },
         Ep { name: "de_str_value_lossy", sem: Sem::PLossy, utf8_only: true, pre: b"", post: b"", f: |b| Deserializer::from_str(s(b)).utf8_lossy().deserialize::<Value>().map(|v| dv(&v)) },
@@ -493,7 +496,10 @@ impl<'a> Gen<'a> {
             2 => out.extend_from_slice(b"9223372036854775808"),
             _ => { out.push(*self.rng.pick(b"123456789")); let lim = if self.rng.chance(1, 8) { 25 } else { 5 }; for _ in 0..self.rng.below(lim) { out.push(*self.rng.pick(b"0123456789")); } }
         }
-        if self.rng.chance(1, 3) { out.push(b'.'); for _ in 0..self.rng.range(1, 6) { out.push(*self.rng.pick(b"0123456789")); } }
+        // fractions: short ones, and sometimes leading zeros followed by more digits than a u64 holds (the slow decimal path)
+        if self.rng.chance(1, 3) { out.push(b'.');
+            if self.rng.chance(1, 6) { for _ in 0..self.rng.below(6) { out.push(b'0'); } for _ in 0..self.rng.range(17, 40) { out.push(*self.rng.pick(b"0123456789")); } }
+            else { for _ in 0..self.rng.range(1, 6) { out.push(*self.rng.pick(b"0123456789")); } } }
         if self.rng.chance(1, 4) { out.push(*self.rng.pick(b"eE")); if self.rng.chance(1, 2) { out.push(*self.rng.pick(b"+-")); }
             for _ in 0..self.rng.range(1, 3) { out.push(*self.rng.pick(b"0123456789")); } }
     }
@@ -562,7 +568,11 @@ impl<'a> Gen<'a> {
             2 => { let i = self.rng.below(v.len() + 1); v.insert(i, *self.rng.pick(structural)); }
             3 if !v.is_empty() => { let i = self.rng.below(v.len()); v[i] = *self.rng.pick(structural); }
             4 if !v.is_empty() => { let i = self.rng.below(v.len()); v[i] = self.rng.below(256) as u8; }
-            5 => { let i = self.rng.below(v.len() + 1); let esc: &[&[u8]] = &[b"\\u12", b"\\ud800", b"\\udc00", b"\\x", b"\\uD834\\u0041", b"\\u00zz", b"\\"];
+            5 => { let i = self.rng.below(v.len() + 1); let esc: &[&[u8]] = &[b"\\u12", b"\\ud800", b"\\udc00", b"\\x", b"\\uD834\\u0041", b"\\u00zz", b"\\",
+                       // a high surrogate followed by something that only half looks like the start of a low one
+                       b"\\ud83d\\tde00", b"\\ud83dXude00", b"\\ud83d\\Ude00", b"\\ud83du\\de00", b"\\ud83d\\\\ude00", b"\\ud83d\\ude00"];
+                   let quotes: Vec<usize> = v.iter().enumerate().filter(|(_, b)| **b == b'"').map(|(k, _)| k + 1).collect();
+                   let i = if !quotes.is_empty() && self.rng.chance(2, 3) { *self.rng.pick(&quotes) } else { i };
                    let e = *self.rng.pick(esc); for (k, b) in e.iter().enumerate() { v.insert(i + k, *b); } }
             6 if v.len() > 1 => { let i = self.rng.below(v.len() - 1); v.swap(i, i + 1); }
             _ => { let i = self.rng.below(v.len() + 1); let k = self.rng.range(1, 70); let c = *self.rng.pick(b" a0\\\""); for _ in 0..k { v.insert(i, c); } }
